@@ -131,9 +131,10 @@ impl SetSketchParams {
         //
         log::debug!("b_inf : {:.5e}, b_aux : {:.3e}", b_inf, b_aux);
         //
-        assert!(jac >= 1. || jinf <= jsup);
+        // near jac = 1 both ends tend to 1 and rounding can leave jinf a few ulps above jsup
+        assert!(jac >= 1. || jinf <= jsup + 1.0e-9);
         //
-        (jinf, jsup)
+        (jinf.min(jsup), jsup)
     }
 
     pub fn dump_json(&self, dirpath: &Path) -> Result<(), String> {
